@@ -157,6 +157,7 @@ def is_type_match_eligible(p: Path, v: V) -> bool:
 def make_eval(repo: Repo, **kw) -> Evaluator:
     models = dict(kw.pop("models", {}) or {})
     models.setdefault("new:TypeMatchEligibleExpression", _m_new_tme)
+    models.setdefault("new:InternalMethodName", lambda pe, ci, args, kwargs, p, e: [(args[0] if args else Const(""), p)])
     models.setdefault("method:copy", _m_copy)
     models.setdefault("new:ValueSpec", _m_new_valuespec)
     kw.setdefault("tagger", tagger)
